@@ -143,19 +143,26 @@ Init ==
   /\ tomb = 0 /\ ctr = 0 /\ prec = "full" /\ edges = {} /\ hist = <<>>
   /\ last = NoSearch
 
+\* Symmetry breaking: ids are added for the first time in the order of IdSeq (which vector meets which
+\* is varied through Data).  A batch holds a non-empty set of addable ids - re-adds of deleted ids and the
+\* next fresh ids - issued in the order of IdSeq or, for "Batch", also in the reverse order.
+Pos(i) == CHOOSE n \in 1..Len(IdSeq) : IdSeq[n] = i
+FreshClosed(S) == \A i \in S : gen[i] = 0 => \A j \in Ids : Pos(j) < Pos(i) => (gen[j] > 0 \/ j \in S)
+BatchSets == {T \in SUBSET {i \in Ids : CanAdd(i)} : T # {} /\ Cardinality(T) <= MaxBatch /\ FreshClosed(T)}
+BatchSeqs(kind) == UNION {{SelectSeq(IdSeq, LAMBDA i : i \in S)} \cup
+                          (IF kind = "Batch" THEN {Reverse(SelectSeq(IdSeq, LAMBDA i : i \in S))} ELSE {})
+                          : S \in BatchSets}
+
 Add(i) ==
-  /\ "Add" \in OpKinds /\ Budget /\ CanAdd(i) /\ TotalAdds < MaxAdds
+  /\ "Add" \in OpKinds /\ Budget /\ CanAdd(i) /\ FreshClosed({i}) /\ TotalAdds < MaxAdds
   /\ live' = [live EXCEPT ![i] = NextVec(i)] /\ gen' = [gen EXCEPT ![i] = @ + 1]
   /\ ctr' = ctr + 1
   /\ Record(Op("Add", <<i>>, <<NextVec(i)>>, "single", <<>>))
   /\ UNCHANGED <<tomb, prec, edges>>
 
-\* a batch holds a non-empty set of addable ids, issued in the order of IdSeq or in the reverse order
-BatchSeqs == UNION {{SelectSeq(IdSeq, LAMBDA i : i \in S), Reverse(SelectSeq(IdSeq, LAMBDA i : i \in S))}
-                    : S \in {T \in SUBSET {i \in Ids : CanAdd(i)} : T # {} /\ Cardinality(T) <= MaxBatch}}
 AddMany(kind, thr) ==
   /\ kind \in OpKinds /\ Budget
-  /\ \E s \in BatchSeqs :
+  /\ \E s \in BatchSeqs(kind) :
        /\ TotalAdds + Len(s) <= MaxAdds
        /\ live' = [i \in Ids |-> IF \E n \in 1..Len(s) : s[n] = i THEN NextVec(i) ELSE live[i]]
        /\ gen' = [i \in Ids |-> IF \E n \in 1..Len(s) : s[n] = i THEN gen[i] + 1 ELSE gen[i]]
@@ -258,7 +265,7 @@ InitOracle ==
   /\ \E c \in Contents : live = c.live /\ edges = c.edges
   /\ gen = [i \in Ids |-> 0] /\ tomb = 0 /\ ctr = 0 /\ prec = "full" /\ hist = <<>> /\ last = NoSearch
 Emit_Oracle ==
-  PrintT(<<"ORACLE", ToJson([live |-> live, edges |-> edges,
+  PrintT(<<"ORACLE", ToJson([live |-> live, edges |-> edges, meta |-> MetaOf,
                              rows |-> Rows([live |-> live, edges |-> edges]),
                              text |-> TextRows([live |-> live, edges |-> edges])])>>)
 NextOracle == Emit_Oracle /\ UNCHANGED <<vars, last>>
